@@ -123,7 +123,7 @@ Proof.
     + exfalso. exact (HnoShift a x EcI).
     + (* shift/reduce *)
       destruct (resolve_decide a p tgt (set_sa st (t_sa st ++ [a]))) as (st' & Hr & Hc' & Hsr' & Hrr' & Hsa' & Hfin' & Hg').
-      { cbn [t_cells set_sa]. rewrite Hcell. exact EcI. }
+      { cbn [t_cells set_sa]. exact Hcell. }
       exists st'. split; [exact Hr|]. constructor.
       * intros b. rewrite (Hc' b). cbn [t_cells set_sa]. destruct (N.eqb_spec b a) as [E|E].
         -- subst b. rewrite Hresa. reflexivity.
@@ -134,7 +134,7 @@ Proof.
       * rewrite Hsa'. cbn [t_sa set_sa]. rewrite Hsa, toks_of_snoc, <- app_assoc. reflexivity.
       * rewrite Hrr'. exact Hrr.
       * rewrite Hfin'. exact Hfin.
-    + exfalso. exact (Hacc a eq_refl eq_refl).
+    + exfalso. exact (Hacc a eq_refl EcI).
     + eexists. split; [reflexivity|]. constructor; cbn [t_cells t_rr t_sr t_sa t_fin t_gotos set_cells set_sa].
       * intros b. unfold upd. destruct (N.eqb_spec b a) as [E|E].
         -- subst b. rewrite Hresa. reflexivity.
@@ -145,8 +145,8 @@ Proof.
       * exact Hrr.
       * exact Hfin.
   - (* rule edge *)
-    rewrite Hgotos. rewrite (assocN_gotos_of r de HX).
-    eexists. split; [reflexivity|]. constructor; cbn [t_cells t_rr t_sr t_sa t_fin t_gotos set_gotos].
+    assert (Hn : assocN r (t_gotos st) = None) by (rewrite Hgotos; apply assocN_gotos_of; exact HX).
+    exists (set_gotos st (t_gotos st ++ [(r, tgt)])). rewrite Hn. split; [reflexivity|]. constructor; cbn [t_cells t_rr t_sr t_sa t_fin t_gotos set_gotos].
     + intros b. rewrite (Hcells b). unfold resolved. rewrite assoc_sym_snoc. simpl fst.
       destruct (assoc_sym (T b) de); reflexivity.
     + rewrite Hsr, sr_of_snoc. unfold sr_of at 3. simpl. rewrite app_nil_r. reflexivity.
